@@ -21,7 +21,7 @@ pub fn styled(slot: usize, style: usize, seed: u64) -> Names {
 }
 
 pub fn named(slot: usize, kind: Kind, style: usize, seed: u64) -> Named {
-    Named { names: styled(slot, style, seed), kind, hidden: false, ty: Ty::Os, adjacent: false }
+    Named { names: styled(slot, style, seed), kind, hidden: false, ty: Ty::Os, adjacent: false, guarded: false }
 }
 
 pub fn pos(kinds: &[PosKind]) -> Tail {
